@@ -368,6 +368,12 @@ static void c09_run(int shard, int nshards, const hz::Args& a, hz::Result& r) {
       {"%d %b %Y", {"31 Sep 2015", "30 Sep 2015", "01 jan 1", "29 Feb 1900", "29 Feb 2000", "1 January 2015"}},
       {"%I:%M %p", {"12:00 AM", "12:00 PM", "01:30 pm", "11:59 PM", "13:00 PM", "00:00 AM"}},
       {" %Y  %m ", {"2015 3", "  2015   3   ", "20153", "2015\t\n3", "2015 3 x"}},
+      // which hour specifier came LAST decides whether %p applies: %I / %OI / %l / %r make it a 12-hour clock, %H / %OH / %k / %T / %R / %c / %X / %Ec / %EX a
+      // 24-hour one; other E/O-modified specifiers must leave that state alone
+      {"%I %p %Ey", {"11 PM 70", "12 AM 70", "01 AM 99"}}, {"%Ey %I %p", {"70 11 PM", "70 12 AM"}}, {"%I %p %EC", {"11 PM 19", "12 PM 20"}}, {"%I %p %Od", {"11 PM 07", "12 AM 31"}},
+      {"%p %I %Om %Oe", {"PM 11 02 29", "AM 12 12  1"}}, {"%OI %p", {"11 PM", "12 AM", "12 PM", "13 PM"}}, {"%OH %p", {"11 PM", "23 PM", "00 AM"}}, {"%I %p %OH", {"11 PM 05", "11 PM 23"}}, {"%H %OI %p", {"05 11 PM", "23 12 AM"}},
+      {"%l %p", {"11 PM", " 1 AM", "12 AM"}}, {"%I %p %OM %OS", {"11 PM 59 59", "12 AM 00 60"}}, {"%I %p %Ex", {"11 PM 01/02/70"}}, {"%EX %p", {"11:22:33 PM"}}, {"%I %p %EX", {"01 PM 11:22:33"}},
+      {"%r", {"11:22:33 PM", "12:00:00 AM"}}, {"%T %p", {"11:22:33 PM"}}, {"%I %p %T", {"01 PM 11:22:33"}}, {"%R %I %p", {"23:59 11 PM", "23:59 12 AM"}},
     };
     for (auto& s : sv) for (auto& v : s.vals) {
       if (!mine()) continue;
